@@ -1,17 +1,17 @@
 package drivers
 
 import (
-	"runtime"
-	"sync"
-	"sync/atomic"
-	"time"
 	"encoding/json"
 	"fmt"
 	"math/rand"
 	"os"
 	"path/filepath"
+	"runtime"
 	"strconv"
+	"sync"
+	"sync/atomic"
 	"testing"
+	"time"
 
 	"verif/harness/trace"
 )
